@@ -1,0 +1,17 @@
+//go:build verif
+// +build verif
+
+// Intrinsics of the verification-condition generator in /verif for this package (the same
+// declarations as in ion/zz_verif_spec.go; the generator recognises them by name).
+
+package main
+
+func vcForallInt(f func(int) bool) bool { return true }
+func vcModMap(m interface{})            {}
+func vcMod(p interface{})               {}
+func vcModElems(n int, p interface{})   {}
+func vcCalls(callee string) int         { return 0 }
+func vcFresh(x interface{}) bool        { return true }
+
+// vcSameObject(a, b): the interface values a and b hold (a pointer to) the same object.
+func vcSameObject(a, b interface{}) bool { return true }
